@@ -4,10 +4,12 @@ import PolyVerif.Lemmas.CodonOptimize
 C07 — Optimized coding sequences translate back to the requested protein.
 
 The theorems hold
-* for every table `t` with `WF t` (it lists each of the 64 codons exactly once; weights are non-negative —
-  so the 25 default tables, `default_wf`, and every re-weighting of them with non-negative weights),
+* for every table `t` with `WF t` (it lists each of the 64 codons exactly once; weights are non-negative; the
+  usage total of every amino acid is below 2^50, the range where the exact share test is the code's float test —
+  so the 25 default tables, `default_wf`, and every re-weighting of them from a sequence shorter than 3·2^50),
 * for every `sorter` that returns a permutation of its argument (`sort.Slice` is unstable: the order of
-  equal-weight choices is universally quantified; sortedness is not even needed),
+  equal-weight choices is universally quantified; sortedness is not even needed) — `stableSort_perm` shows the
+  stable sort used to replay real runs is one of them,
 * for every protein and every list of draws consistent with the run (`DrawsOK`: each draw actually made
   lies in `[1, max]` of the chooser it is made from).
 The float share test is modelled exactly (`10·w > Σw`); see Model/CodonOptimize.lean for the assumption.
@@ -21,7 +23,7 @@ variable {sorter : List Choice → List Choice}
 theorem optimize_total (hperm : ∀ l, (sorter l).Perm l) {t : Table} (hwf : WF t) {p : Str} (hp : p ≠ [])
     {rs : List Nat} (hd : DrawsOK (chooserMap sorter t) p rs) (henc : ∀ aa ∈ p, hasChooser t [aa] = true) :
     ∃ cs, Emits t p cs ∧ optimize sorter t p rs = some (.ok cs.flatten) := by
-  obtain ⟨cs, hem, hloop⟩ := optimizeLoop_ok hperm hwf.2 p rs [] hd henc
+  obtain ⟨cs, hem, hloop⟩ := optimizeLoop_ok hperm hwf.2.1 p rs [] hd henc
   refine ⟨cs, hem, ?_⟩
   have hb : byteLen p ≠ 0 := fun h => hp ((byteLen_eq_zero p).1 h)
   simp [optimize, partition_nonempty hwf.1, hb, hloop]
@@ -161,6 +163,36 @@ theorem positive_usage_encodable {t : Table} {a : AminoAcid} (ha : a ∈ t.amino
   simp only [hasChooser, List.any_eq_true, Bool.and_eq_true, beq_iff_eq, decide_eq_true_eq]
   exact ⟨a, ha, rfl, List.length_pos_iff.2 (eligible_exists a hpos h9).2⟩
 
+/-- the other side of the 10 % rule: an amino acid with ten or more synonyms of EQUAL usage has no codon whose
+share exceeds 10 % (each share is at most exactly 1/10), so it gets no chooser and `Optimize` returns the error
+although its usage is positive.  (The statement's "positive usage" clause and its "> 10 %" clause disagree there;
+the code, the model and the judge follow the threshold.  No NCBI code has more than 8 synonyms, `default_synonyms_le_8`.) -/
+theorem ten_equal_synonyms_unencodable (a : AminoAcid) (w : Int) (hw : 0 ≤ w) (hall : ∀ c ∈ a.codons, c.weight = w)
+    (h10 : 10 ≤ a.codons.length) : choices a = [] := by
+  have hsum : ∀ l : List Codon.Codon, (∀ c ∈ l, c.weight = w) → (l.map (·.weight)).sum = (l.length : Int) * w := by
+    intro l
+    induction l with
+    | nil => simp
+    | cons c cs ih =>
+      intro h
+      have h1 := h c List.mem_cons_self
+      have h2 := ih (fun x hx => h x (List.mem_cons_of_mem _ hx))
+      simp only [List.map_cons, List.sum_cons, List.length_cons, Int.natCast_add, Int.natCast_one, Int.add_mul, Int.one_mul, h1, h2]
+      omega
+  have hs : sumWeights a = (a.codons.length : Int) * w := hsum a.codons hall
+  have hge : 10 * w ≤ sumWeights a := by
+    rw [hs]
+    exact Int.mul_le_mul_of_nonneg_right (by omega) hw
+  simp only [choices, List.map_eq_nil_iff, List.filter_eq_nil_iff]
+  intro c hc
+  have hcw := hall c hc
+  simp only [shareTest, hcw]
+  split
+  · simp; omega
+  · split
+    · omega
+    · simp; omega
+
 /-- "in proportion to its weight", exactly: of the `max` equally likely values of `rand.Intn(max) + 1`,
 exactly `w(c)` make `Pick` return codon `c` — whatever order the unstable sort left the choices in -/
 theorem pick_proportional (hperm : ∀ l, (sorter l).Perm l) {t : Table} (hwf : WF t)
@@ -168,7 +200,7 @@ theorem pick_proportional (hperm : ∀ l, (sorter l).Perm l) {t : Table} (hwf : 
     (hel : shareTest c.weight (sumWeights a) = true) :
     ((List.range' 1 (newChooser sorter (choices a)).max.toNat).countP
       fun (r : Nat) => decide (pick (newChooser sorter (choices a)) r = .ok c.triplet)) = c.weight.toNat := by
-  have hn := hwf.2 a ha
+  have hn := hwf.2.1 a ha
   have hdata : ∀ ch ∈ sorter (choices a), 0 ≤ ch.weight := by
     intro ch hch
     obtain ⟨c', _, rfl, _, hpos⟩ := mem_choices hn ((hperm _).mem_iff.1 hch)
@@ -225,7 +257,7 @@ theorem optimize_unencodable (hperm : ∀ l, (sorter l).Perm l) {t : Table} (hwf
     obtain ⟨_, h, _⟩ := hbad
     exact List.ne_nil_of_mem h
   have hb : byteLen p ≠ 0 := fun h => hp ((byteLen_eq_zero p).1 h)
-  simp [optimize, partition_nonempty hwf.1, hb, optimizeLoop_err hperm hwf.2 p rs [] hd hbad]
+  simp [optimize, partition_nonempty hwf.1, hb, optimizeLoop_err hperm hwf.2.1 p rs [] hd hbad]
 
 /-- the residues that have no chooser: no entry of that name, or an entry none of whose codons passes the
 share test — in particular an entry whose synonyms all have weight zero -/
@@ -251,6 +283,10 @@ theorem unencodable_zero (t : Table) (l : Str)
     simp [shareTest, hs, hz c hc]
   simp [this] at hpos
 
+/-- the stable sort by weight — the sorter with which real `Optimize` runs are replayed on the model, and the
+order `sort.Slice` leaves on the short slices a chooser is built from — is one of the sorters the theorems cover -/
+theorem stableSort_admissible : ∀ l : List Choice, (stableSort l).Perm l := stableSort_perm
+
 /-- the two guards -/
 theorem optimize_empty_table (p : Str) (rs : List Nat) :
     optimize sorter { startCodons := [], stopCodons := [], aminoAcids := [] } p rs = some .err := rfl
@@ -262,8 +298,16 @@ theorem optimize_empty_protein (t : Table) (rs : List Nat) : optimize sorter t [
 
 theorem default_nonneg : ∀ id ∈ Spec.Ncbi.ids, NonNeg (getCodonTable id) := by decide +kernel
 
+theorem default_bounded : ∀ id ∈ Spec.Ncbi.ids, Bounded (getCodonTable id) := by decide +kernel
+
 theorem default_wf : ∀ id ∈ Spec.Ncbi.ids, WF (getCodonTable id) :=
-  fun id hid => ⟨(rowOk_spec (rows_ok id hid)).2.1.1, default_nonneg id hid⟩
+  fun id hid => ⟨(rowOk_spec (rows_ok id hid)).2.1.1, default_nonneg id hid, default_bounded id hid⟩
+
+/-- no genetic code gives an amino acid more than 8 codons (S in codes 5, 9, 14, 21; T in code 3): for the 25
+default tables and every re-weighting of them the side condition `≤ 9 synonyms` of `eligible_exists` /
+`positive_usage_encodable` always holds, so there "positive usage" does imply "encodable" -/
+theorem default_synonyms_le_8 : ∀ id ∈ Spec.Ncbi.ids, ∀ a ∈ (getCodonTable id).aminoAcids, a.codons.length ≤ 8 := by
+  decide +kernel
 
 /-- the three codes without a termination entry (their stop codons are context dependent and read as amino acids) -/
 def noStopIds : List Nat := [27, 28, 31]
